@@ -1,12 +1,14 @@
 //! p2h: correspondence harness. `p2h emit <prop> <seed> <quick|thorough> <outdir>` runs the real
 //! plonky2 code on generated inputs and writes request lines (req.txt), the implementation's
 //! answers (impl.txt) and the input distribution (meta.json).
+mod c04;
 mod c05;
 mod c12;
 mod c13;
 mod c14;
 mod c15;
 mod dump;
+mod progs;
 mod util;
 
 use std::path::PathBuf;
@@ -26,6 +28,7 @@ fn main() {
     let extra = serde_json::json!({});
     match prop {
         "c14" => c14::emit(&mut e, seed, thorough),
+        "c04" => c04::emit(&mut e, seed, thorough),
         "c05" => c05::emit(&mut e, seed, thorough),
         "c12" => c12::emit(&mut e, seed, thorough),
         "c15" => c15::emit(&mut e, seed, thorough),
